@@ -102,11 +102,38 @@ pub fn stage_summary(name: &str, ctx: &Context) -> Result<Json> {
             }
         }
     }
+    // call structure: per graph its own randomising / PRF nodes and its calls [callee (1-based), multiplicity]; an Iterate
+    // is listed with the length of its input vector and flagged (the depth-optimised inliners copy a body more often)
+    let index_of = |g: &ciphercore_base::graphs::Graph| graphs.iter().position(|x| x == g).map(|i| i as u64 + 1).unwrap_or(0);
+    let mut gr = vec![];
+    let mut iterates = 0u64;
+    for g in graphs.iter() {
+        let (mut grnd, mut gprf) = (0u64, 0u64);
+        let mut gcalls = vec![];
+        for n in g.get_nodes() {
+            match n.get_operation() {
+                Operation::PRF(_, _) | Operation::PermutationFromPRF(_, _) => gprf += 1,
+                Operation::Random(_) | Operation::RandomPermutation(_) => grnd += 1,
+                Operation::Call => gcalls.push(json!([index_of(&n.get_graph_dependencies()[0]), 1])),
+                Operation::Iterate => {
+                    iterates += 1;
+                    let len = match n.get_node_dependencies()[1].get_type()? {
+                        ciphercore_base::data_types::Type::Vector(len, _) => len,
+                        _ => 0,
+                    };
+                    gcalls.push(json!([index_of(&n.get_graph_dependencies()[0]), len]));
+                }
+                _ => {}
+            }
+        }
+        gr.push(json!({"rnd": grnd, "prf": gprf, "calls": gcalls}));
+    }
+    let main_ix = index_of(&main);
     let inputs: Vec<Json> = inputs_of(&main)
         .iter()
         .map(|n| Ok(json!({"name": n.get_name()?.unwrap_or_default(), "ty": type_json(&n.get_type()?)})))
         .collect::<Result<_>>()?;
     Ok(json!({"ev": name, "graphs": graphs.len(), "main_nodes": main.get_nodes().len(), "custom": customs, "calls": calls,
-              "prf": prf, "rnd": rnd, "inputs": inputs, "finalized": ctx.check_finalized().is_ok(),
+              "prf": prf, "rnd": rnd, "gr": gr, "iterates": iterates, "main": main_ix, "inputs": inputs, "finalized": ctx.check_finalized().is_ok(),
               "out_ty": type_json(&main.get_output_node()?.get_type()?)}))
 }
